@@ -63,9 +63,15 @@ def plan_items(prop, tier, seed, ncases):
     bag = [k for k, w in kinds for _ in range(w)]
     items = []
     base = (seed * 1_000_003 + sum(map(ord, prop))) & 0x7FFFFFFF
+    nd = 0
     for i in range(n):
         kind = bag[i % len(bag)]
-        items.append((kind, (base + i * 7919) & 0x7FFFFFFF, tier, prop))
+        if kind == "directed":
+            # directed templates are enumerated (stride 101 spreads a short run over the whole list)
+            items.append((kind, (base % 20000) * 100000 + (nd * 101) % 100000, tier, prop))
+            nd += 1
+        else:
+            items.append((kind, (base + i * 7919) & 0x7FFFFFFF, tier, prop))
     return items
 
 
